@@ -77,13 +77,18 @@ fn h_sample(case: &HCase, o: &HObs) -> Value {
     })
 }
 
-fn h_faults(o: &HObs) -> Vec<(&'static str, u64)> {
+fn h_faults(case: &HCase, o: &HObs) -> Vec<(&'static str, u64)> {
+    let kind = match case.write_err_kind {
+        0 => "write_error_epipe",
+        1 | 2 => "write_wouldblock_or_timedout_once_after_partial_write",
+        _ => "flush_interrupted_wouldblock_or_timedout_once",
+    };
     vec![
         ("short_read", o.cnt.short_reads),
         ("read_eintr", o.cnt.read_eintr),
         ("short_write", o.cnt.short_writes),
         ("write_eintr", o.cnt.write_eintr),
-        ("write_error_epipe", o.cnt.write_errors),
+        (kind, o.cnt.write_errors),
     ]
 }
 
@@ -184,7 +189,7 @@ fn finish_h(case: &HCase, o: &HObs, mut extra: Vec<Violation>) -> RunResult {
             || model.has_malformed
             || model.has_gray
             || model.alts.iter().any(|a| matches!(a.end, End::Upgraded { .. })),
-        faults: h_faults(o),
+        faults: h_faults(case, o),
         probes: h_probes(case, o, &stream),
         sim_ms: 0,
         steps: o.cnt.handle_calls + o.cnt.read_calls,
